@@ -84,12 +84,15 @@ def main():
             shutil.copy(demo, os.path.join(d, "demo.py"))
             for h in helpers:
                 shutil.copy(os.path.join(out_dir, h), os.path.join(d, h))
-            notes = os.path.join(out_dir, "notes.md")
+            notes = os.path.join(out_dir, {"A": "notes.md", "B": "notes.md", "C": "notes2.md", "D": "notes2.md"}.get(letter, "notes3.md"))
+            old_meta_needs = f"see agent_notes.md (section on change {letter})"
             if os.path.exists(notes):
                 shutil.copy(notes, os.path.join(d, "agent_notes.md"))
             meta_path = os.path.join(d, "meta.json")
             old = json.load(open(meta_path)) if os.path.exists(meta_path) else {}
             old.update(meta)
+            old.setdefault("needs", old_meta_needs)
+            old["what_was_run"] = "tools/seeded.py: demo on a clean copy (passes), repository test suite with the change (passes), demo with the change (fails), then the listed quick checks with PYAB_REPO pointing at the patched copy"
             json.dump(old, open(meta_path, "w"), indent=1)
             print("kept as", d)
         return 0 if confirmed else 1
